@@ -29,7 +29,10 @@ PROPS = {
                         "C16_selection_all / C16_selection_dev_file / C16_selection_same (with oracles for glob, /sys, canonicalize: exactly the keyboard-like, non-virtual, "
                         "non-excluded devices with a node are selected, by either path, under the stated guards) and C16_no_panic are proved in Coq for the model; the model is "
                         "compared with both real extractors on every generated text and the extracted checkers are applied to the real outputs; the selection layer is "
-                        "compared in a private mount namespace when unshare -m is available"),
+                        "compared in a private mount namespace when unshare -m is available: the primary observation of a selection run there is which fabricated nodes of /dev/input the "
+                        "child process opens (inotify; the loop opens the selected nodes in order and stops at the first failure, a fabricated node is a plain file), judged as 'only selected "
+                        "nodes are opened and the first selected existing one is'; the verbose log is a secondary observation, used for the full comparison only when in every scenario of the run it "
+                        "has the expected shape and agrees with the opens, otherwise counted (evidence key namespace_observations) and ignored - reworded messages are not a violation"),
         "assumptions": [
             "the generated device texts, names, masks and scenarios bound the correspondence, not the theorems",
             "--dev-file selection equals --all-keyboards selection only when canonical device paths are pairwise distinct and contain no '//' (the HashMap keeps the last entry per canonical path; see C16_dev_file_overwrite_example) and when no /sys lookup fails (list_input_devices looks up every non-virtual device, list_keyboards only keyboards)",
